@@ -320,6 +320,59 @@ func checkC09(w *Worker) {
 			}
 		}
 	})
+	// long files with CRLF line ends: the two bytes of a line end may arrive in different reads of the 4096-byte buffer;
+	// sixteen shifts of the whole file move every line end through every alignment
+	w.Explore("long-file-crlf", ExploreOpts{ShardDepth: 2}, func(x *Exec) {
+		shift := x.Choose(16, "layout:shift")
+		le := x.Choose(3, "layout:line-ends") // CRLF, LF, CRLF with an LF-only malformed line
+		eol := []string{"\r\n", "\n", "\r\n"}[le]
+		mixed := le == 2
+		var sb strings.Builder
+		line := 0
+		emit := func(s, e string) { sb.WriteString(s + e); line++ }
+		emit("# "+strings.Repeat("p", shift), eol)
+		var raws []string
+		var nums []int
+		for r := 0; line < 1200; r++ {
+			emit(fmt.Sprintf("20%02d/%02d/%02d:", 21+r/336, 1+(r/28)%12, 1+r%28), eol)
+			for e := 0; e < 3; e++ {
+				if line == 700 || line == 1190 {
+					b := c09Bad[(line/100)%len(c09Bad)]
+					le := eol
+					if mixed {
+						le = "\n"
+					}
+					emit(b.Text, le)
+					raws = append(raws, b.Text)
+					nums = append(nums, line)
+					continue
+				}
+				emit(fmt.Sprintf("  food/%d: %d", e, e+1), eol)
+			}
+		}
+		full := sb.String()
+		x.Case(fmt.Sprint("crlf", shift, eol == "\n", mixed), true)
+		lc := appCase{Args: []string{"lint", "log.yaml"}, Files: map[string]string{"log.yaml": full}}
+		lr := runApp(lc)
+		x.Obs(lr.Key())
+		got := splitLines(lr.Stdout)
+		ok := len(got) == len(nums) && lr.Failed && lr.Panic == ""
+		for i := 0; ok && i < len(got); i++ {
+			ok = quotes(got[i], raws[i], nums[i])
+		}
+		if !ok {
+			x.Violate("C09|lint|long-file-crlf|wrong-messages", fmt.Sprintf("lint on a %d-line file (line ends %q, first line %d bytes) with malformed lines %v prints:\n%s", line, eol, shift+2, nums, tailStr(lr.String(), 600)), nil)
+			return
+		}
+		for _, cmd := range [][]string{{"print"}, {"reg"}, {"csv", "log"}, {"stats"}} {
+			c := appCase{Args: append([]string{"--no-color"}, cmd...), Files: map[string]string{"food.yaml": "r1:\n  cal: 2\n", "log.yaml": full}}
+			r := runApp(c)
+			if r.Panic != "" || !r.Failed || !quotes(r.Err, raws[0], nums[0]) {
+				x.Violate("C09|log|"+strings.Join(cmd, " ")+"|long-file-crlf|wrong-error", fmt.Sprintf("`%s` on a %d-line log (line ends %q, first line %d bytes) with the first malformed line %q at line %d: failed=%v error %q", strings.Join(cmd, " "), line, eol, shift+2, raws[0], nums[0], r.Failed, r.Err), nil)
+				return
+			}
+		}
+	})
 	// many malformed lines: every one reported once, in file order; the exit status of the real program is non-zero for
 	// every count (an exit status keeps eight bits: 256 and 512 findings must not read as success)
 	w.Explore("many-malformed-lines", ExploreOpts{ShardDepth: 2}, func(x *Exec) {
